@@ -4,6 +4,7 @@ import (
 	"go/constant"
 	"go/token"
 	"go/types"
+	"strings"
 
 	"golang.org/x/tools/go/ssa"
 )
@@ -17,9 +18,16 @@ import (
 type evalVal struct {
 	u      uint64
 	isBool bool
-	fields []evalVal // struct value
+	fields []evalVal // struct value (array value, result tuple)
 	ok     bool
+	// exec only:
+	obj    *evalObj // slice value: its backing store (nil for the nil slice)
+	isNil  bool     // nil slice / pointer / interface
+	opaque bool     // a non-nil value whose content is not modelled (a constructed error)
 }
+
+// evalObj is the backing store of a slice built by an interpreted function.
+type evalObj struct{ elems []evalVal }
 
 type evaluator struct {
 	steps int
@@ -456,4 +464,416 @@ func (e *evaluator) trace(fn *ssa.Function, args []evalVal) (visited []*ssa.Basi
 		prev, b = b, next
 	}
 	return visited, nil
+}
+
+// ---------- exec: functions that build a list ----------
+
+// evalRef is an address inside the interpreted function's own storage: a local cell, a field of one,
+// an element of a local array or of a slice the function made.
+type evalRef struct {
+	get func() (evalVal, bool)
+	set func(evalVal)
+}
+
+// evalZero is the zero value of t as exec models it.
+func evalZero(t types.Type) evalVal {
+	switch u := t.Underlying().(type) {
+	case *types.Basic:
+		return evalVal{ok: true, isBool: u.Info()&types.IsBoolean != 0}
+	case *types.Struct:
+		fs := make([]evalVal, u.NumFields())
+		for i := range fs {
+			fs[i] = evalZero(u.Field(i).Type())
+		}
+		return evalVal{ok: true, fields: fs}
+	case *types.Array:
+		fs := make([]evalVal, int(u.Len()))
+		for i := range fs {
+			fs[i] = evalZero(u.Elem())
+		}
+		return evalVal{ok: true, fields: fs}
+	}
+	return evalVal{ok: true, isNil: true}
+}
+
+func evalCopy(v evalVal) evalVal {
+	if v.fields != nil {
+		fs := make([]evalVal, len(v.fields))
+		for i := range fs {
+			fs[i] = evalCopy(v.fields[i])
+		}
+		v.fields = fs
+	}
+	return v
+}
+
+// exec runs fn on concrete arguments and returns its results. Beyond the pure integer/boolean code of
+// call it models what a function needs to *build a list*: local cells and composite literals, slices it
+// makes (make, append, s[i] = v, re-slicing), len, calls of repo functions with the same means, and
+// multiple results. What it does not model (a call outside the repo, a load through a pointer it was
+// handed) leaves the value unknown; a constructed error is an opaque non-nil value. exec gives up
+// (ok=false, e.fail says why) when control depends on an unknown value, on a panic (an index out of
+// range is reported as such) and at the step limit (a loop that does not terminate).
+func (e *evaluator) exec(fn *ssa.Function, args []evalVal) ([]evalVal, bool) {
+	if fn == nil || fn.Blocks == nil || len(args) != len(fn.Params) {
+		e.fail = "unsupported callee"
+		return nil, false
+	}
+	env := map[ssa.Value]evalVal{}
+	refs := map[ssa.Value]*evalRef{}
+	for i, p := range fn.Params {
+		if args[i].ok {
+			env[p] = args[i]
+		}
+	}
+	val := func(v ssa.Value) (evalVal, bool) {
+		if c, ok := v.(*ssa.Const); ok {
+			if c.Value == nil {
+				if _, isBasic := c.Type().Underlying().(*types.Basic); isBasic {
+					return evalZero(c.Type()), true
+				}
+				if _, isStruct := c.Type().Underlying().(*types.Struct); isStruct {
+					return evalZero(c.Type()), true
+				}
+				return evalVal{ok: true, isNil: true}, true
+			}
+			sub := &evaluator{}
+			return sub.val(nil, v)
+		}
+		r, ok := env[v]
+		return r, ok && r.ok
+	}
+	intOf := func(v ssa.Value, dflt int) (int, bool) {
+		if v == nil {
+			return dflt, true
+		}
+		x, ok := val(v)
+		if !ok || x.fields != nil || x.obj != nil {
+			return 0, false
+		}
+		return int(int64(x.u)), true
+	}
+	// the elements an address or a slice value designates
+	elemsOf := func(v ssa.Value) (get func() []evalVal, ok bool) {
+		if _, isPtr := v.Type().Underlying().(*types.Pointer); isPtr {
+			r := refs[v]
+			if r == nil {
+				return nil, false
+			}
+			return func() []evalVal { a, _ := r.get(); return a.fields }, true
+		}
+		x, known := val(v)
+		if !known {
+			return nil, false
+		}
+		if x.obj == nil {
+			return func() []evalVal { return nil }, x.isNil
+		}
+		return func() []evalVal { return x.obj.elems }, true
+	}
+	var prev *ssa.BasicBlock
+	b := fn.Blocks[0]
+	for {
+		var next *ssa.BasicBlock
+		for _, ins := range b.Instrs {
+			e.steps++
+			if e.steps > 400000 {
+				e.fail = "step limit (the function does not terminate)"
+				return nil, false
+			}
+			switch x := ins.(type) {
+			case *ssa.Phi:
+				for i, p := range b.Preds {
+					if p == prev {
+						if v, ok := val(x.Edges[i]); ok {
+							env[x] = v
+						} else {
+							delete(env, x)
+						}
+					}
+				}
+			case *ssa.DebugRef:
+			case *ssa.Alloc:
+				cell := evalZero(x.Type().Underlying().(*types.Pointer).Elem())
+				known := true
+				refs[x] = &evalRef{
+					get: func() (evalVal, bool) { return evalCopy(cell), known },
+					set: func(v evalVal) { cell, known = evalCopy(v), v.ok },
+				}
+			case *ssa.FieldAddr:
+				base, field := refs[x.X], x.Field
+				delete(refs, x)
+				if base != nil {
+					refs[x] = &evalRef{
+						get: func() (evalVal, bool) {
+							s, ok := base.get()
+							if !ok || field >= len(s.fields) {
+								return evalVal{}, false
+							}
+							return s.fields[field], s.fields[field].ok
+						},
+						set: func(v evalVal) {
+							if s, ok := base.get(); ok && field < len(s.fields) {
+								s.fields[field] = v
+								base.set(s)
+							}
+						},
+					}
+				}
+			case *ssa.IndexAddr:
+				delete(refs, x)
+				idx, okI := intOf(x.Index, 0)
+				if _, isPtr := x.X.Type().Underlying().(*types.Pointer); isPtr {
+					base := refs[x.X]
+					if base == nil || !okI {
+						break
+					}
+					if a, ok := base.get(); ok && (idx < 0 || idx >= len(a.fields)) {
+						e.fail = "index out of range"
+						return nil, false
+					}
+					refs[x] = &evalRef{
+						get: func() (evalVal, bool) {
+							a, ok := base.get()
+							if !ok {
+								return evalVal{}, false
+							}
+							return a.fields[idx], a.fields[idx].ok
+						},
+						set: func(v evalVal) {
+							if a, ok := base.get(); ok {
+								a.fields[idx] = v
+								base.set(a)
+							}
+						},
+					}
+					break
+				}
+				sl, okS := val(x.X)
+				if !okS || !okI {
+					break
+				}
+				if sl.obj == nil || idx < 0 || idx >= len(sl.obj.elems) {
+					e.fail = "index out of range"
+					return nil, false
+				}
+				obj := sl.obj
+				refs[x] = &evalRef{
+					get: func() (evalVal, bool) { return evalCopy(obj.elems[idx]), obj.elems[idx].ok },
+					set: func(v evalVal) { obj.elems[idx] = evalCopy(v) },
+				}
+			case *ssa.Store:
+				r := refs[x.Addr]
+				if r == nil {
+					break // not into storage that is modelled
+				}
+				v, _ := val(x.Val)
+				r.set(v)
+			case *ssa.If:
+				c, ok := val(x.Cond)
+				if !ok {
+					e.fail = "control depends on a value that is not modelled"
+					return nil, false
+				}
+				if c.u != 0 {
+					next = b.Succs[0]
+				} else {
+					next = b.Succs[1]
+				}
+			case *ssa.Jump:
+				next = b.Succs[0]
+			case *ssa.Return:
+				out := make([]evalVal, len(x.Results))
+				for i, rv := range x.Results {
+					out[i], _ = val(rv)
+				}
+				return out, true
+			case *ssa.Panic:
+				e.fail = "panics"
+				return nil, false
+			case *ssa.RunDefers, *ssa.Defer, *ssa.Go, *ssa.Send, *ssa.MapUpdate:
+				e.fail = "unsupported instruction"
+				return nil, false
+			case ssa.Value:
+				delete(env, x)
+				if v, ok := e.execValue(x, val, intOf, elemsOf, refs); ok {
+					env[x] = v
+				} else if e.fail != "" {
+					return nil, false
+				}
+			}
+			if next != nil {
+				break
+			}
+		}
+		if next == nil {
+			e.fail = "fell off block"
+			return nil, false
+		}
+		prev, b = b, next
+	}
+}
+
+// execFault: exec stopped because the interpreted execution goes wrong (as opposed to: cannot be followed).
+func execFault(why string) bool {
+	switch why {
+	case "panics", "index out of range", "slice bounds out of range", "makeslice: len out of range", "division by zero":
+		return true
+	}
+	return strings.HasPrefix(why, "step limit")
+}
+
+// execValue computes one value-producing instruction of exec; ok=false with e.fail empty means unknown.
+func (e *evaluator) execValue(v ssa.Value, val func(ssa.Value) (evalVal, bool), intOf func(ssa.Value, int) (int, bool),
+	elemsOf func(ssa.Value) (func() []evalVal, bool), refs map[ssa.Value]*evalRef) (evalVal, bool) {
+	switch x := v.(type) {
+	case *ssa.UnOp:
+		if x.Op == token.MUL {
+			if r := refs[x.X]; r != nil {
+				return r.get()
+			}
+			return evalVal{}, false
+		}
+	case *ssa.MakeInterface:
+		return val(x.X)
+	case *ssa.ChangeInterface:
+		return val(x.X)
+	case *ssa.MakeSlice:
+		n, ok := intOf(x.Len, 0)
+		if !ok {
+			return evalVal{}, false
+		}
+		if n < 0 || n > 1<<20 {
+			e.fail = "makeslice: len out of range"
+			return evalVal{}, false
+		}
+		obj := &evalObj{elems: make([]evalVal, n)}
+		for i := range obj.elems {
+			obj.elems[i] = evalZero(x.Type().Underlying().(*types.Slice).Elem())
+		}
+		return evalVal{ok: true, obj: obj}, true
+	case *ssa.Slice:
+		get, ok := elemsOf(x.X)
+		if !ok {
+			return evalVal{}, false
+		}
+		all := get()
+		lo, ok1 := intOf(x.Low, 0)
+		hi, ok2 := intOf(x.High, len(all))
+		if !ok1 || !ok2 {
+			return evalVal{}, false
+		}
+		if lo < 0 || hi < lo || hi > len(all) {
+			e.fail = "slice bounds out of range" // (capacity beyond the length is not modelled)
+			return evalVal{}, false
+		}
+		if src, known := val(x.X); known && src.obj != nil && lo == 0 && hi == len(all) {
+			return src, true
+		}
+		obj := &evalObj{}
+		for _, el := range all[lo:hi] {
+			obj.elems = append(obj.elems, evalCopy(el))
+		}
+		return evalVal{ok: true, obj: obj}, true
+	case *ssa.Extract:
+		t, ok := val(x.Tuple)
+		if !ok || x.Index >= len(t.fields) {
+			return evalVal{}, false
+		}
+		return t.fields[x.Index], t.fields[x.Index].ok
+	case *ssa.BinOp:
+		if x.Op == token.EQL || x.Op == token.NEQ {
+			a, ok1 := val(x.X)
+			c, ok2 := val(x.Y)
+			if ok1 && ok2 && (a.isNil || c.isNil) {
+				// comparison with nil: a made slice, an opaque value are not nil
+				nilA, nilC := a.isNil && a.obj == nil, c.isNil && c.obj == nil
+				r := uint64(0)
+				if (nilA == nilC) == (x.Op == token.EQL) {
+					r = 1
+				}
+				return evalVal{u: r, isBool: true, ok: true}, true
+			}
+			if ok1 && ok2 && (a.opaque || c.opaque || a.obj != nil || c.obj != nil) {
+				return evalVal{}, false
+			}
+		}
+	case *ssa.Call:
+		name := calleeName(x)
+		switch name {
+		case "builtin.len":
+			get, ok := elemsOf(x.Call.Args[0])
+			if !ok {
+				return evalVal{}, false
+			}
+			return evalVal{u: uint64(len(get())), ok: true}, true
+		case "builtin.append":
+			g0, ok0 := elemsOf(x.Call.Args[0])
+			g1, ok1 := elemsOf(x.Call.Args[1])
+			if !ok0 || !ok1 {
+				return evalVal{}, false
+			}
+			obj := &evalObj{}
+			for _, el := range g0() {
+				obj.elems = append(obj.elems, evalCopy(el))
+			}
+			for _, el := range g1() {
+				obj.elems = append(obj.elems, evalCopy(el))
+			}
+			return evalVal{ok: true, obj: obj}, true
+		}
+		isErr := isErrorType(x.Type())
+		callee := staticCallee(x)
+		if callee != nil && callee.Blocks != nil && !x.Call.IsInvoke() && len(callee.FreeVars) == 0 {
+			args := make([]evalVal, len(x.Call.Args))
+			for i, a := range x.Call.Args {
+				args[i], _ = val(a)
+			}
+			sub := &evaluator{steps: e.steps}
+			res, ok := sub.exec(callee, args)
+			e.steps = sub.steps
+			if ok {
+				if len(res) == 1 {
+					return res[0], res[0].ok
+				}
+				return evalVal{ok: true, fields: res}, true
+			}
+			if execFault(sub.fail) {
+				e.fail = sub.fail
+				return evalVal{}, false
+			}
+		}
+		if isErr {
+			// a constructed error whose construction is not modelled: some non-nil error
+			return evalVal{ok: true, opaque: true}, true
+		}
+		return evalVal{}, false
+	}
+	// pure integer / boolean code
+	if _, isCall := v.(*ssa.Call); isCall {
+		return evalVal{}, false
+	}
+	sub := &evaluator{}
+	env := map[ssa.Value]evalVal{}
+	var ops []*ssa.Value
+	if in, ok := v.(ssa.Instruction); ok {
+		for _, op := range in.Operands(ops) {
+			if *op == nil {
+				continue
+			}
+			if _, isK := (*op).(*ssa.Const); isK {
+				continue
+			}
+			o, known := val(*op)
+			if !known || o.obj != nil || o.opaque || o.isNil {
+				return evalVal{}, false
+			}
+			env[*op] = o
+		}
+	}
+	r, ok := sub.instr(env, nil, v)
+	if !ok && sub.fail == "div0" {
+		e.fail = "division by zero"
+	}
+	return r, ok && r.ok
 }
